@@ -105,7 +105,7 @@ func step(line string) string {
 		// buffer: the bytes returned by the earlier Build stay what they were
 		w := spec.NewWriter()
 		first := wprog.NewWith(buffer.New(), w).Run(earlierProgram)
-		earlier = first.Bytes
+		earlier = first.Raw
 		earlierCopy = append([]byte(nil), first.Bytes...)
 		w.Reset(nil)
 		it = wprog.NewWith(buffer.New(), w)
